@@ -25,4 +25,15 @@ Homes3p2l == <<{1, 2}, {3}>>          \* 3 partitions, 2 lifecyclers: l1 moves b
 Homes2p3l == <<{1}, {1}, {2}>>        \* 2 partitions, 3 lifecyclers: two owners of p1, a third party on p2
 Cfg3p2l == << <<1, 0, 1>>, <<0, 1, 1>> >>
 Cfg2p3l == << <<2, 0, 1>>, <<2, 1, 1>>, <<1, 1, 1>> >>
+
+(* Reachability witnesses: the action properties are implications; TLC must REFUTE each of the     *)
+(* following "never" statements (MC_sm_witness.cfg, no VIEW: `act` is not part of it), which shows  *)
+(* that their antecedents occur in the model: an automatic promotion, a deletion by another         *)
+(* lifecycler, a request refused because of the lock, a reconciliation refused because of the lock, *)
+(* and a refused illegal edge.                                                                      *)
+WitAutoPromotion   == ~(act.kind = "ReconcileOwned" /\ act.res = "ok")
+WitDeletion        == ~(act.kind = "ReconcileOthers" /\ act.res = "ok")
+WitLockRefusal     == ~(act.kind \in {"EditorChangeState", "LcChangeState"} /\ act.res = "locked")
+WitLockedReconcile == ~(act.kind = "ReconcileOwned" /\ act.res = "locked")
+WitIllegalEdge     == ~(act.res = "notallowed")
 =============================================================================
